@@ -92,6 +92,35 @@ def make_cases(tier):
     return out
 
 
+def machine_cases(tier):
+    """instances for the machine-derived distribution: AST, representatives for 1..nmax units per block, and (optionally) which molecules a
+    recorded defect touches (probe(smiles, units) -> key of the known finding or None)"""
+    from .gast import M, S, Token
+    from .instances import _imp
+    pre = lambda: Token(["OCC", _imp("<", w=0)])
+    suf = lambda t="[Si]": Token([_imp(">"), t])
+    G1, U1, P1, W1 = ("gauss", [100, 20]), ("uniform", [40, 200]), ("poisson", [65]), ("gauss", [60, 50])
+    heavy = "start-group-mass-counted-in-block"
+    closing = "choice-among-closing-end-groups-not-counted"
+    n = 6 if tier == "quick" else 9
+    out = [
+        dict(name="prefix-suffix", mol=M(pre(), S("[<]", ["[<]C(N)C[>]"], [], "[>]", G1), suf(), name="m-prefix-suffix"), nmax=n),
+        dict(name="prefix-suffix-uniform", mol=M(pre(), S("[<]", ["[<]C(=O)C[>]"], [], "[>]", U1), suf(), name="m-uniform"), nmax=n),
+        dict(name="prefix-suffix-poisson", mol=M(pre(), S("[<]", ["[<]C(Cl)C[>]"], [], "[>]", P1), suf(), name="m-poisson"), nmax=4),
+        dict(name="hstart", mol=M(S("[]", ["[<]C(N)C[>]"], ["[<][H]", "[>][H]"], "[]", G1), name="m-hstart"), nmax=n),
+        dict(name="two-start-weighted", mol=M(S("[]", ["[<]C(N)C[>]"], ["[<|3|][H]", "[<]F"], "[>]", G1), suf(), name="m-two-start"), nmax=n,
+             probe=lambda smi, units: heavy if "F" in smi else None),
+        dict(name="two-closing", mol=M(pre(), S("[<]", ["[<]C(N)C[>]"], ["[>|3|]F", "[>]Cl"], "[]", G1), name="m-two-closing"), nmax=n,
+             probe=lambda smi, units: closing),
+        dict(name="two-blocks", mol=M(pre(), S("[<]", ["[<]C(N)C[>]"], [], "[>]", G1), S("[<]", ["[<]C(=O)C[>]"], [], "[>]", U1), suf(), name="m-two-blocks"), nmax=5),
+        dict(name="connector", mol=M(pre(), S("[<]", ["[<]C(N)C[>]"], [], "[>]", G1), Token([_imp(">"), "CC[Si]C", _imp("<", w=0)]),
+                                     S("[<]", ["[<]C(=O)C[>]"], [], "[>]", P1), suf("F"), name="m-connector"), nmax=4),
+        dict(name="wide-gauss", mol=M(pre(), S("[<]", ["[<]C(N)C[>]"], [], "[>]", W1), suf(), name="m-wide"), nmax=n),
+        dict(name="gem-difluoro-isopropyl", mol=M(pre(), S("[<]", ["[<]C(F)(F)C[>]"], [], "[>]", ("gauss", [150, 40])), suf("C(C)C"), name="m-sym"), nmax=n),
+    ]
+    return out
+
+
 def key_of(case, clause):
     return f"C19:{case.probe}" if case.probe else f"C19:{clause}@{case.name}"
 
@@ -203,6 +232,49 @@ def run(tier):
                 p = 0.0
             records.append({"kind": "zero", "p": sc(p), "tol": sc(1e-12)})
             meta.append((case, smi, f"outside the ensemble ({why}): reported {p}", {}))
+    # ---- the distribution of the generation machine itself (spec/GenerateProb.tla): reported probability = machine probability ----
+    from . import genprob as GP
+    mach_states = mach_mols = 0
+    mach_samples = []
+    for mc in machine_cases(tier):
+        text = mc["mol"].text()
+        try:
+            mol = g.Molecule(text)
+        except Exception as exc:
+            raise MachineryError(f"{text}: {exc}")
+        dist, covered, info = GP.machine_distribution(mc["mol"], mc["nmax"], tag="c19prob")
+        if abs(sum(dist.values()) - covered) > 1e-9:
+            raise MachineryError(f"{text}: machine distribution sums to {sum(dist.values())}, declared law covers {covered}")
+        alt = GP.distribution(info["leaves"], info["blocks"], lower_tail=False)
+        mach_states += info["states"]
+        tol = max((3e-3 if b[2].__class__.__name__ == "SchulzZimm" else 2e-7) for b in info["blocks"])
+        total_impl = 0.0
+        for smi, p_spec in sorted(dist.items()):
+            if p_spec < 1e-9:
+                continue
+            mach_mols += 1
+            n_queries += 1
+            try:
+                r = g.get_ensemble_prob(smi, mol)
+                p_impl = float(r[0]) if isinstance(r, tuple) else float(r)
+            except Exception as exc:
+                v.violation(f"C19:raises:{type(exc).__name__}@machine:{mc['name']}", f"get_ensemble_prob({smi!r}, {text!r}) raises {type(exc).__name__}: {exc}",
+                            {"smiles": smi, "molecule": text})
+                continue
+            total_impl += p_impl
+            if len(mach_samples) < 4 and p_spec > 0.2:
+                mach_samples.append({"molecule": text, "query": smi, "machine_probability": p_spec, "reported": p_impl})
+            if abs(p_impl - p_spec) <= tol + 1e-9:
+                continue
+            units = info["mols"][smi][0]
+            what = f"{text}: {smi} (units per block {list(units)}): reported {p_impl}, the generation machine produces it with probability {p_spec}"
+            known = mc["probe"](smi, units) if mc.get("probe") else None
+            if known:
+                v.violation(f"C19:{known}", what, {"smiles": smi, "molecule": text})
+            elif 1 in units and abs(p_impl - alt[smi]) <= tol + 1e-9:
+                v.violation("C19:mass-below-zero-missing-from-one-unit-chain", what + "; the difference is the law's mass at or below zero", {"smiles": smi, "molecule": text})
+            else:
+                v.violation(f"C19:reported-differs-from-machine-probability@{mc['name']}", what, {"smiles": smi, "molecule": text})
     failed, states = LC.validate(records, tag="c19")
     for idx, clauses in failed:
         case, smi, what, x = meta[idx]
@@ -220,8 +292,10 @@ def run(tier):
                 v.violation("C19:truncated-molecule-gets-probability", f"{case.text}: {smi}: {what}", {"smiles": smi, "molecule": case.text})
                 continue
             v.violation(key_of(case, c + (":" + why if why else "")), f"{case.text}: {smi}: {what}", {"smiles": smi, "molecule": case.text})
-    v.coverage = {"states": states, "transitions": states, "traces_validated_against_impl": n_queries, "queries": n_queries, "records": len(records),
-                  "cases": len(make_cases(tier)), "samples": samples}
+    v.coverage = {"states": states + mach_states, "transitions": states + mach_states, "traces_validated_against_impl": n_queries, "queries": n_queries,
+                  "records": len(records), "cases": len(make_cases(tier)), "samples": samples,
+                  "machine_derived": {"module": "spec/GenerateProb.tla", "cases": len(machine_cases(tier)), "TLC_states": mach_states,
+                                      "molecules_compared": mach_mols, "samples": mach_samples}}
     v.assumptions = ["closed form: start probability x product over blocks of F(M_n) - F(M_{n-1}) with the reference CDF (harness/refcdf.py) at the cumulative unit masses",
                      "single-block relations are evaluated by TLC (Law.tla, record kind 'chain'); products over several blocks are formed in Python (TLC's integers are 32 bit)",
                      "tolerance 2e-7 (3e-3 for Schulz-Zimm, which the implementation discretises)",
